@@ -113,6 +113,12 @@ fn single_overlong_step(c: &Case, prob: &Prob, rtol: Tol, atol: Tol, bound: f64,
     for i in 0..s.t.len() {
         let e = dist(&s.y[i], &prob.exact(s.t[i]));
         if e > bound {
+            if i == 1 {
+                // first-step variant: there is no predecessor to compare with; the step chosen by the automatic
+                // initial-step heuristic lies outside the asymptotic range (h * rate > 1) and is accepted because the
+                // estimate vanishes there (SciPy's RK45 accepts the same first step with the same error when given it)
+                return c.method != Meth::RK4 && prob.rate_t() * (s.t[1] - s.t[0]).abs() > 1.0;
+            }
             if i < 2 {
                 return false;
             }
@@ -145,6 +151,9 @@ fn overlong_step_dominates(c: &Case, prob: &Prob, rtol: Tol, atol: Tol, bound: f
     let e: Vec<f64> = (0..s.t.len()).map(|i| dist(&s.y[i], &prob.exact(s.t[i]))).collect();
     if !e.iter().any(|v| *v > bound) {
         return false;
+    }
+    if c.method != Meth::RK4 && s.t.len() > 1 && prob.rate_t() * (s.t[1] - s.t[0]).abs() > 1.0 && e[1] >= 0.5 * bound {
+        return true;
     }
     (2..s.t.len()).any(|i| {
         let h = (s.t[i] - s.t[i - 1]).abs();
@@ -211,6 +220,9 @@ fn diagnose_generic(run_plain: &dyn Fn() -> Option<Solution>, exact_at: &dyn Fn(
     let errs: Vec<f64> = s.y.iter().zip(&ex).map(|(a, b)| max_abs_diff(a, b)).collect();
     // K1: first violation at a step at least 2.5x its predecessor, error before it small
     if let Some(i) = errs.iter().position(|e| *e > bound) {
+        if i == 1 && rate * (s.t[1] - s.t[0]).abs() > 1.0 {
+            return "C01-overlong-step";
+        }
         if i >= 2 {
             let h = (s.t[i] - s.t[i - 1]).abs();
             let hp = (s.t[i - 1] - s.t[i - 2]).abs();
@@ -498,6 +510,20 @@ pub fn check(c: &Case) -> Outcome {
             eprintln!("nacc={} nrej={} nfev={}", s.naccpt, s.nrejct, s.nfev);
         }
         if !emax.is_finite() || emax > bound {
+            if std::env::var_os("VF_C01_DIAG").is_some() {
+                let mut c2 = c.clone();
+                c2.t_eval = None;
+                if let Ok(sp) = run_one(&c2, &prob, rtol_k.clone(), atol_k.clone(), None) {
+                    eprintln!("C01-DIAG plain run: rate_t = {:e}", prob.rate_t());
+                    for i in 0..sp.t.len() {
+                        eprintln!("  t={:e} h={:e} err/bound={:.3}", sp.t[i], if i > 0 { sp.t[i] - sp.t[i - 1] } else { 0.0 }, max_abs_diff(&sp.y[i], &prob.exact(sp.t[i])) / bound);
+                    }
+                }
+                eprintln!("C01-DIAG run with t_eval:");
+                for i in 0..s.t.len() {
+                    eprintln!("  t={:e} err/bound={:.3}", s.t[i], max_abs_diff(&s.y[i], &prob.exact(s.t[i])) / bound);
+                }
+            }
             let key = if emax.is_finite() && (single_overlong_step(c, &prob, rtol_k.clone(), atol_k.clone(), bound, None) || overlong_step_dominates(c, &prob, rtol_k.clone(), atol_k.clone(), bound, None)) {
                 "C01-overlong-step"
             } else if emax.is_finite() && coarse_step_interpolation(c, &prob, rtol_k.clone(), atol_k.clone(), bound, &s, None) {
